@@ -1253,6 +1253,24 @@ func (np *nopanic) sliceBoundedBy(fn *ssa.Function, b *ssa.BasicBlock, bound ssa
 		if termOf(fn, y) == lenTerm && sameValueExpr(x, b0) && (op == token.LEQ || op == token.LSS) {
 			return true
 		}
+		// len(P[E:]) >= c  =>  E + j <= len(P) for every constant j <= c (E any expression)
+		if c, isC := constIntOf(y); isC && (op == token.GEQ || op == token.GTR) {
+			if op == token.GTR {
+				c++
+			}
+			if ln, ok := x.(*ssa.Call); ok && calleeName(&ln.Call) == "builtin:len" {
+				if sl, ok := stripConvNP(ln.Call.Args[0]).(*ssa.Slice); ok && sl.Low != nil && sl.High == nil && sl.Max == nil && arrayLenOfPtr(sl.X.Type()) < 0 {
+					r, p := accessPath(stripConvNP(sl.X))
+					if "len:"+rootKey(fn, r)+"."+strings.Join(p, ".") == lenTerm {
+						gb, goff := flatAdd(sl.Low)
+						bb, boff := flatAdd(b0)
+						if _, gconst := constIntOf(gb); !gconst && sameValueExpr(gb, bb) && boff <= goff+c {
+							return true
+						}
+					}
+				}
+			}
+		}
 		if sumK >= 0 {
 			if t, off := termOff(fn, x); t == lenTerm && off == -sumK && sameValueExpr(y, sumS) && (op == token.GEQ || op == token.GTR) {
 				np.noWrap[sumBo] = true
@@ -1277,7 +1295,32 @@ func (np *nopanic) lowLEHigh(fn *ssa.Function, b *ssa.BasicBlock, lo, hi ssa.Val
 	}
 	lc, lok := constIntOf(l)
 	hc, hok := constIntOf(h)
-	return lok && hok && lc <= hc
+	if lok && hok {
+		return lc <= hc
+	}
+	// same base, constant offsets: E+i <= E+j
+	lb, lo2 := flatAdd(l)
+	hb, ho2 := flatAdd(h)
+	if _, isC := constIntOf(lb); !isC && sameValueExpr(lb, hb) && lo2 <= ho2 {
+		return true
+	}
+	return false
+}
+
+// flatAdd decomposes v into base + off through constant additions that cannot wrap.
+func flatAdd(v ssa.Value) (ssa.Value, int64) {
+	v = stripConvNP(v)
+	if bo, ok := v.(*ssa.BinOp); ok && bo.Op == token.ADD && !narrowAddMayWrap(bo) {
+		if c, isC := constIntOf(stripConvNP(bo.Y)); isC {
+			b, o := flatAdd(bo.X)
+			return b, o + c
+		}
+		if c, isC := constIntOf(stripConvNP(bo.X)); isC {
+			b, o := flatAdd(bo.Y)
+			return b, o + c
+		}
+	}
+	return v, 0
 }
 
 // sameValueExpr: syntactically equal pure integer expressions (no CSE in go/ssa).
